@@ -148,9 +148,15 @@ func runC03(r *fw.Run) {
 			if !ok || len(as.Lhs) != 1 || len(as.Rhs) != 1 || gateObj != nil {
 				return true
 			}
-			if b, ok := ast.Unparen(as.Rhs[0]).(*ast.BinaryExpr); ok && b.Op == token.LAND {
+			// the gate is a conjunction in any spelling: its negation normal form (for the outcome true) is "and"
+			if op, leaves := fw.NNF(info, as.Rhs[0], true); op == "and" && len(leaves) >= 2 {
 				gateObj = fw.RootObj(info, as.Lhs[0])
-				conjuncts = flattenAnd(as.Rhs[0])
+				for _, l := range leaves {
+					conjuncts = append(conjuncts, l.X)
+					if l.Y != nil {
+						conjuncts = append(conjuncts, l.Y)
+					}
+				}
 			}
 			return true
 		})
